@@ -83,6 +83,7 @@ fn run_case<const N: usize>(slot: usize, bs: usize, ops: &[&str]) -> String {
         }
         f.log.clear();
         let ops_before = f.ops;
+        f.rhash = 0;
         let mut tok = match t[0] {
             "start" => {
                 let sz: u32 = t[1].parse().unwrap();
@@ -276,7 +277,7 @@ fn run_case<const N: usize>(slot: usize, bs: usize, ops: &[&str]) -> String {
         }
         // number of device operations (reads included) this script op issued
         if f.ops != ops_before && !passive && !f.dead {
-            tok.push_str(&format!("#{}", f.ops - ops_before));
+            tok.push_str(&format!("#{}/{:x}", f.ops - ops_before, f.rhash));
         }
         out.push(tok);
     }
